@@ -11,6 +11,9 @@ coverage counterparts (`TokCover.html/code`, `LinkCover.inline/label`: what the 
 skip contains no needed byte outside their text pieces; the autolink scanner is discharged). "Not duplicated" follows from
 `rewrite_spans` + `no_duplication`. Deriving the scanner facts for block-phase trees is the open connection; on parser output
 the clause is evaluated by `Spec.coverage` on every tree.
+CAVEAT (sixth wave): `ContsOK` is the original scanner hypothesis, shown in `Props/C02Scan.lean` to be false for containers that hold
+a code span; `rewrite_cover` is therefore a statement about containers without one until the coverage development is re-run under
+`ContsOK2` like the span and no-panic developments were. `Spec.coverage` evaluated on the implementation's trees decides the rest.
 -/
 namespace CM.Props.C03
 open CM CM.Model CM.Model.Inl CM.Spec CM.Proofs CM.Proofs.InlH
